@@ -689,7 +689,66 @@ def x_transpose(body):
                     raise Unsupported(e, "closure does not use its own parameter")
                 d["src"] = base
                 return d
+        # COND.then(|| inner)
+        g = then_gate(e)
+        if g is not None:
+            inner = g[1]
+            d = items_src(inner) or src(inner, selfname, False)
+            d["gate"] = g[0]
+            return d
+        # self.ports.iter().map(|p| p.transpose_one(i, version)).collect()
+        if e.get("k") == "MethodCall" and e["method"] == "collect":
+            m = strip(e["recv"])
+            if m.get("k") == "MethodCall" and m["method"] == "map":
+                it = strip(m["recv"])
+                cl = strip(m["args"][0])
+                if it.get("k") == "MethodCall" and it["method"] == "iter" and not it["args"] and cl.get("k") == "Closure" and len(cl["params"]) == 1:
+                    pn = cl["params"][0].get("name")
+                    d = src(cl["body"], pn, False)
+                    if d["src"] != pn:
+                        raise Unsupported(e, "closure does not use its own parameter")
+                    return dict(kind="each", src=place(it["recv"]), opt=False, struct=d.get("struct"))
+        # plain copy of a non-column field (port)
+        p = place(e)
+        if p and e.get("k") in ("Field",):
+            return dict(kind="copy", src=p, opt=False)
         raise Unsupported(e, "row-view source outside the fragment: " + tir.pretty(e)[:100])
+
+    def items_src(e):
+        """{ let (a, b) = OFFS.start_end(i); (a..b).map(|j| ITEM.transpose_one(j, version)).collect() }"""
+        e = strip_try(e)
+        if e.get("k") != "Block" or len(e.get("stmts", [])) != 1 or not e.get("tail"):
+            return None
+        s = e["stmts"][0]
+        if not (s.get("k") == "Let" and s["pat"].get("k") == "Tuple" and len(s["pat"]["pats"]) == 2):
+            return None
+        a, b = [q.get("name") for q in s["pat"]["pats"]]
+        i = strip(s["init"])
+        if not (i.get("k") == "MethodCall" and i["method"] == "start_end" and "arrow2::offset::Offsets" in (declared(i) or "")):
+            return None
+        if local_name(i["args"][0]) != iname:
+            raise Unsupported(i, "item offsets taken at an index other than the row parameter")
+        t = strip_try(e["tail"])
+        if not (t.get("k") == "MethodCall" and t["method"] == "collect"):
+            return None
+        m = strip(t["recv"])
+        if not (m.get("k") == "MethodCall" and m["method"] == "map"):
+            return None
+        rng = strip(m["recv"])
+        lo = hi = None
+        if rng.get("k") == "Struct" and (rng.get("path") or "").endswith("ops::Range"):
+            fl = {f["name"]: local_name(f["e"]) for f in rng["fields"]}
+            lo, hi = fl.get("start"), fl.get("end")
+        cl = strip(m["args"][0])
+        if cl.get("k") != "Closure" or len(cl["params"]) != 1:
+            return None
+        jn = cl["params"][0].get("name")
+        body = strip_try(cl["body"])
+        if not (body.get("k") == "MethodCall" and body["method"] == "transpose_one" and (declared(body) or "").startswith("frame::")):
+            return None
+        ba = body["args"]
+        ok = (lo, hi) == (a, b) and len(ba) == 2 and local_name(ba[0]) == jn and local_name(ba[1]) == vname
+        return dict(kind="items", src=place(body["recv"]), offsets=place(i["recv"]), exact=ok, opt=False, struct=struct_of_path(declared(body)))
 
     for name, e in fields:
         d = src(e, "self", False)
